@@ -41,6 +41,8 @@ func main() {
 		os.Exit(stressChild(os.Args[2:]))
 	case "worker":
 		workerMain()
+	case "smoke":
+		os.Exit(smokeChild())
 	case "bodies": // maintenance: print the normalised bodies the whole-body facts are compared with
 		mem := gofacts.MustLoad(os.Args[2], "cache/ttlmem.go")
 		rds := gofacts.MustLoad(os.Args[2], "cache/ttlrds.go")
@@ -427,6 +429,8 @@ func parseOp(f []string) (op, bool) {
 		}
 		o.key = strings.Join(f[1:], " ")
 		return o, true
+	case f[0] == "smoke" && len(f) == 1:
+		return o, true
 	case f[0] == "del" && len(f) == 2:
 		o.key = f[1]
 		return o, parseKey(f[1])
@@ -606,6 +610,14 @@ func runCaseLocal(c corr.Case, stream func(string)) corr.Result {
 			}
 			continue
 		}
+		if o.kind == "smoke" {
+			out, hit := runSmoke()
+			if hit != nil {
+				res.Hits = append(res.Hits, *hit)
+			}
+			emit(out)
+			continue
+		}
 		if o.kind == "stress" {
 			out, hit := runStress(strings.Fields(o.key))
 			if hit != nil {
@@ -688,6 +700,7 @@ func hasRace(c corr.Case) bool {
 }
 
 func runCase(c corr.Case) corr.Result {
+	smokeOnce.Do(func() { smokeRes = startSmoke() })
 	if !hasRace(c) || os.Getenv("C05_INPROCESS") != "" {
 		return runCaseLocal(c, nil)
 	}
@@ -977,6 +990,83 @@ func runStress(args []string) (string, *corr.Hit) {
 		os.Exit(2)
 	}
 	return "stress-crash", &corr.Hit{Key: "C05:concurrency:crash", What: "racing callers (" + strings.Join(args, " ") + ") aborted the process: " + first}
+}
+
+// ---------------------------------------------------------------- the production clock, once per run
+//
+// `smoke`: a child process that does NOT install the clock hook uses the in-memory cache with the package's own `now`
+// and real time: a key set with ttl 1 s must be gone 2.1 s later, a key set with ttl 600 s must still be served.
+// Real time can only err on the safe side here (a slower machine makes the first key only more expired; the second
+// check would need a 10-minute stall), so this never produces a false alarm; it is the only place where the clock
+// that production code reads (`now`, whoever assigns it) is exercised.
+
+func smokeChild() int {
+	c := cache.NewTTLMemCache(4, 0)
+	_ = c.Set(ctx, "short", []byte("v"), cache.WithTTL(1))
+	_ = c.Set(ctx, "long", []byte("w"), cache.WithTTL(600))
+	if v, err := c.Get(ctx, "short"); err != nil || string(v) != "v" {
+		fmt.Println("smoke-bad a key set with ttl 1 s is not served immediately afterwards")
+		return 0
+	}
+	time.Sleep(2100 * time.Millisecond)
+	if v, err := c.Get(ctx, "short"); err == nil {
+		fmt.Printf("smoke-bad a key set with ttl 1 s is still served (%q) 2.1 s later under the production clock\n", v)
+		return 0
+	}
+	if _, err := c.Get(ctx, "long"); err != nil {
+		fmt.Println("smoke-bad a key set with ttl 600 s is gone after 2.1 s under the production clock")
+		return 0
+	}
+	fmt.Println("smoke-ok")
+	return 0
+}
+
+var (
+	smokeOnce sync.Once
+	smokeRes  chan string
+	smokeUsed bool
+)
+
+func startSmoke() chan string {
+	ch := make(chan string, 1)
+	go func() {
+		cmd := exec.Command(os.Args[0], "smoke")
+		var out, errb strings.Builder
+		cmd.Stdout, cmd.Stderr = &out, &errb
+		if err := cmd.Run(); err != nil {
+			ch <- "child-failed " + err.Error() + " " + errb.String()
+			return
+		}
+		ch <- strings.TrimSpace(out.String())
+	}()
+	return ch
+}
+
+// runSmoke: the first call collects the child started when the first script ran (so the 2.1 s are not waited for);
+// later calls (shrinking, replay) run a fresh child.
+func runSmoke() (string, *corr.Hit) {
+	smokeOnce.Do(func() { smokeRes = startSmoke() })
+	ch := smokeRes
+	if smokeUsed {
+		ch = startSmoke()
+	}
+	smokeUsed = true
+	var line string
+	select {
+	case line = <-ch:
+	case <-time.After(180 * time.Second):
+		fmt.Fprintln(os.Stderr, "c05: smoke child did not finish within 180 s — harness error")
+		os.Exit(2)
+	}
+	switch {
+	case line == "smoke-ok":
+		return "smoke-ok", nil
+	case strings.HasPrefix(line, "smoke-bad "):
+		return "smoke-bad", &corr.Hit{Key: "C05:mem:production-clock", What: "without the clock hook (real time, the package's own `now`): " + strings.TrimPrefix(line, "smoke-bad ")}
+	}
+	fmt.Fprintln(os.Stderr, "c05: smoke child failed:", line)
+	os.Exit(2)
+	return "", nil
 }
 
 // ---------------------------------------------------------------- property monitors
@@ -1818,7 +1908,7 @@ func genStress(r *rng.R) corr.Case {
 
 func genMalformed(r *rng.R) corr.Case {
 	junk := []string{"", "set", "set k1", "set k1 x - 0 0", "set 1 2 - 0 0", "set k1 2 - 2 0", "get k1", "get k1 2 -", "get k1 0 x", "tick -5", "tick x",
-		"race k1 0", "race k1", "fset k1", "fget", "fset k1 x", "fget 3", "cdel", "cset k1", "cget k1 0", "cclear now", "ctick 5", "crace k1 2", "stress mem 2 1 0 10 2", "stress foo 2 1 2 10 2", "stress mem 2 1 2 10", "stress mem 99 1 2 10 2", "del", "del 5", "clear now", "new mem 1", "new foo 1 0 5", "new mem -1 0 5", "new mem 1 - 5", "SET k1 1 - 0 0", "set k1 1 -- 0 0", "set k1 1 + 0 0", "get k1 0 1e3"}
+		"race k1 0", "race k1", "fset k1", "fget", "fset k1 x", "fget 3", "smoke now", "cdel", "cset k1", "cget k1 0", "cclear now", "ctick 5", "crace k1 2", "stress mem 2 1 0 10 2", "stress foo 2 1 2 10 2", "stress mem 2 1 2 10", "stress mem 99 1 2 10 2", "del", "del 5", "clear now", "new mem 1", "new foo 1 0 5", "new mem -1 0 5", "new mem 1 - 5", "SET k1 1 - 0 0", "set k1 1 -- 0 0", "set k1 1 + 0 0", "get k1 0 1e3"}
 	lines := []string{r.Pick("new mem 2 0 1700000000000", "new both 2 3 1700000000000", "new", "new mem x 0 5", "new rds 1 1 1 1")}
 	for i := 0; i < r.Range(3, 10); i++ {
 		if r.Chance(1, 2) {
@@ -1889,20 +1979,26 @@ func fixedCases() []corr.Case {
 	}
 }
 
+func tierCount(tier string) int {
+	switch tier {
+	case "quick":
+		return 4000
+	case "thorough":
+		return 60000
+	}
+	return 15000
+}
+
 func spec() corr.Spec {
 	return corr.Spec{
 		Property: "C05",
 		Fixed:    fixedCases,
-		Count: func(tier string) int {
-			switch tier {
-			case "quick":
-				return 5000
-			case "thorough":
-				return 60000
-			}
-			return 30000
-		},
+		Count:    tierCount,
 		Gen: func(r *rng.R, tier string, i int) corr.Case {
+			if i == tierCount(tier)-1 {
+				// last case of the run: collect the hook-free child that was started with the first script
+				return corr.Case{Tag: "smoke-production-clock", Lines: []string{"new mem 1 0 1700000000000", "smoke"}}
+			}
 			n := r.Range(6, 30)
 			if tier != "quick" && r.Chance(1, 4) {
 				n = r.Range(30, 90)
